@@ -330,7 +330,10 @@ class BanditManager:
             nosec_lines = dict()
             try:
                 fdata.seek(0)
-                tokens = tokenize.tokenize(fdata.readline)
+                # the parser counts a lone CR as a line end, readline() does
+                # not: number the comment lines the way the AST numbers them
+                text = data.replace(b"\r\n", b"\n").replace(b"\r", b"\n")
+                tokens = tokenize.tokenize(io.BytesIO(text).readline)
 
                 if not self.ignore_nosec:
                     for toktype, tokval, (lineno, _), _, _ in tokens:
